@@ -208,6 +208,9 @@ def doc_script(kind, detail):
             outs.append(mk_output(Agg("ExitStatus", "Timeout", [Agg("Duration", None, [mk_int(10 ** 9, "nat")])])))
             which = Agg("ExecutionTimeout", "Total", []) if kind == "timeout-total" else Agg("ExecutionTimeout", "Index", [mk_int(len(detail), "usize")])
             return err(Agg("ExecutionError", "Timeout", [which, VecBuf(outs)]))
+        if kind == "aborted":
+            # the single-script executor's way of giving up: an error that carries the output captured so far
+            return err(Agg("ExecutionError", "AbortedExecutions", [Opaque("anyhow"), some(mk_output(code()))]))
         return err(Agg("ExecutionError", "FailedExecution", [mk_int(0, "usize"), Opaque("anyhow")]))
     return run
 
@@ -223,6 +226,7 @@ def doc_variants(t, rich):
         for pre in itertools.product("CD" if rich else "C", repeat=k):
             out += [("timeout-total", "".join(pre)), ("timeout-index", "".join(pre))]
     out.append(("hard-error", 0))
+    out.append(("aborted", 0))
     return out
 
 
@@ -464,6 +468,8 @@ def native_replay(cli_pre, cli_app, docs, received, verdicts, flags=None):
     import tempfile
     from common import SCRUT_BIN
     verdicts = list(verdicts)
+    if any(d.kind == "aborted" for d in docs):
+        return False, False, "an aborted script run (single-script executor) is not realised by the Markdown documents of this replay", None
     per_doc = []
     for doc in docs:
         pre, main, app = titles_of(doc, cli_pre, cli_app)
@@ -472,7 +478,7 @@ def native_replay(cli_pre, cli_app, docs, received, verdicts, flags=None):
         if b is None:
             return False, False, "exit status Unknown cannot be produced by a command", None
         per_doc.append(b)
-        if doc.kind == "hard-error":
+        if doc.kind in ("hard-error", "aborted"):
             break
     # test cases of shared (prepend / append) documents pick their behaviour by $TESTFILE; `detached` and `timeout` are static
     files = {}          # file → {title → {docfile → behaviour}}
